@@ -20,7 +20,7 @@ distribution = bc.distribution
 
 
 def cases_n(tier):
-    return 3 if tier == "quick" else 40
+    return 4 if tier == "quick" else 40
 
 
 def nontrivial_key(o):
